@@ -177,7 +177,15 @@ func leaves(sv SV, out *[]*Term) {
 				for _, p := range v.LV.Path {
 					h = h*31 + p + 1
 				}
-				*out = append(*out, ufun("ptr.interior."+sanitize(pt), []string{SInt, SInt}, SInt, v.LV.Heap, intLit(int64(h))))
+				t := ufun("ptr.interior."+sanitize(pt), []string{SInt, SInt}, SInt, v.LV.Heap, intLit(int64(h)))
+				// read-through model (see interiorOrigins): the pointer is marked as an interior one and remembers its owner
+				if o := interiorOrigins[pt]; o != nil && !o.multi && v.LV.HeapT != nil && typeKey(o.T) == typeKey(v.LV.HeapT) && o.prefix == fieldPrefix(v.LV.HeapT, v.LV.Path) {
+					pendingInterior = append(pendingInterior,
+						not(eq(t, intLit(0))),
+						ufun("ptr.isint."+sanitize(pt), []string{SInt}, SBool, t),
+						eq(ufun("ptr.owner."+sanitize(pt), []string{SInt}, SInt, t), v.LV.Heap))
+				}
+				*out = append(*out, t)
 				return
 			}
 			panic("leaves: static pointer has no address")
@@ -334,3 +342,32 @@ func typeKey(t types.Type) string {
 }
 
 var interiorTypes = map[string]bool{}
+
+// interiorOrigins: for an element type F, the one place (owner type T, field path) from which the unit under
+// verification takes pointers into the interior of heap objects and stores them in memory (found by a pre-pass over
+// its code, registerInteriorOrigins). A load through a *F read from memory then reads through: if the pointer is an
+// interior one (ptr.isint) the contents are the owner's field (ptr.owner), otherwise the F object at that address.
+// Stores through such pointers stay refused (writeLV), so the two views never disagree.
+type interiorOrigin struct {
+	T      types.Type
+	prefix string
+	multi  bool
+}
+
+var interiorOrigins = map[string]*interiorOrigin{}
+var pendingInterior []*Term
+
+// fieldPrefix is the leaf-path prefix (as build() spells it) of the field reached by path in t; "" with ok=false
+// semantics folded into "?" when the path leaves struct fields.
+func fieldPrefix(t types.Type, path []int) string {
+	out := ""
+	for _, p := range path {
+		u, ok := t.Underlying().(*types.Struct)
+		if !ok || p >= u.NumFields() {
+			return "?"
+		}
+		out += "." + u.Field(p).Name()
+		t = u.Field(p).Type()
+	}
+	return out
+}
